@@ -6,16 +6,16 @@ ROOT = os.path.dirname(os.path.dirname(os.path.abspath(__file__)))
 
 CLAIMED = {
  "C10": ("4 (C10)", "seeded interrogation dialogues over a lossy / duplicating / reordering channel with row expiry in between; oracle: reference gating automaton {CA recorded via DF11 (certain) or DF17 (possible), registers advertised by the latest admissible BDS 1,7 report, -R} plus an independent Doc 9871 decoder (checked against literature vectors): MB-derived fields change only when gating allows and the register is valid, take the reference values, and valid in-range advertised registers are decoded (left/right turns, climbs/descents)"),
- "C08": ("4 (C08)", "seeded two-message-protocol simulation: ground-truth trajectories stratified over all NL zones / both sides of every transition latitude / equator / +-87 / antimeridian / CPR-zero points, even/odd frames separated by exactly 9.999999 / 10 / 10.000001 s on the discrete-event clock, lost / duplicated / reordered frames; oracle: reference pairing automaton + textbook global CPR decode (NL from its formula), 20 m against encoded truth, haversine distance, position untouched by every frame that completes no valid pair"),
- "C11": ("4 (C11)", "seeded refinement against a small executable fold ('latest carrier wins') after every event of interleaved multi-aircraft histories with time steps and duplicate delivery; short histories enumerated densely by run index; carried values taken from the decoder's own state-free decode so that routing / overwriting / clearing / cross-talk / idempotence are judged, not field decoding"),
+ "C08": ("4 (C08)", "seeded two-message-protocol simulation: ground-truth trajectories stratified over all NL zones / both sides of every transition latitude / equator / +-87 / antimeridian / CPR-zero points, even/odd frames separated by exactly 9.999999 / 10 / 10.000001 s on the discrete-event clock, lost / duplicated / reordered frames; oracle: reference pairing automaton + textbook global CPR decode (NL from its formula), 20 m against encoded truth, haversine distance, position untouched by every frame that completes no valid pair; clock set back between the frames of a pair, pairs straddling midnight / month end / new year, reconnects mid-pair"),
+ "C11": ("4 (C11)", "seeded refinement against a small executable fold ('latest carrier wins') after every event of interleaved multi-aircraft histories with time steps and duplicate delivery; short histories enumerated densely by run index; carried values taken from the decoder's own state-free decode (altitude codes, callsigns, DF21 squawk and TC19 velocity are decoded independently as well) so that routing / overwriting / clearing / cross-talk / idempotence are judged; long uptime, calendar boundaries, bursts"),
  "C19": ("4 (C19)", "seeded differential simulation under deterministic replay: the same world (input, arrival times, clocks) executed under two option sets differing only in presentation/logging options or in -U; oracle: row-by-row table equality after every event (all fields; all but distance for -O; the nine decoded parameters for -U)"),
- "C03": ("4 (C03)", "seeded interleaved multi-aircraft histories (adversarially close addresses, nine formats, random payloads, zero-address frames, duplicates, reordering); invariants after every delivered read against an independent CRC-24/address reference: only the addressed row changes, it exists afterwards, no row for address 0, key == address, no unexplained rows"),
- "C12": ("4 (C12)", "seeded schedules of talk spurts and silences on and around delete_after under a discrete-event clock, every format as the refreshing frame, -U/-f, file and TCP with reconnects; oracle: reference expiry model after every event (live rows present, last-contact stamp == processing time of latest accepted frame, stale rows gone within 12 accepted frames, re-created rows equal first-frame rows, no phantom rows)"),
- "C16": ("4 (C16)", "seeded mixed streams (all formats, unsupported DFs, zero addresses, parity failures, junk) under -f subsets, -c on/off, refresh driven by the simulated clock, stdout captured through the seam; oracle: reference per-DF counter == printed counter line in ascending order, filtered/rejected frames change neither table nor output, passing frames are applied, no counter line without -c"),
- "C18": ("4 (C18)", "seeded TCP fault sequences over {refuse, accept+close, accept+frames+close, accept+partial line+reset/timeout, accept+junk, EINTR} followed by a healthy connection, with simulated 5 s retry pauses; oracle: reader never returns/panics, whole script is read and healthy frames applied, 3..8 s pause after a refused attempt, rows heard within delete_after survive unchanged, rejected partial lines change nothing"),
- "C04": ("4 (C04)", "seeded histories with bit-flip injection on in-flight DF11/17/18 squitters (all 1-bit, all 2-bit, all (start,len<=24) bursts enumerated round-robin by run index, heavy random) at chosen history points; oracle: table bit-for-bit unchanged incl. time stamps and no counter/output effect whenever the reference CRC-24 syndrome demands rejection; IID-only DF11 must be applied"),
- "C13": ("4 (C13)", "seeded differential simulation: a junk-laden stream (file or TCP, arbitrary read boundaries) against its accepted subsequence replayed at identical simulated processing times; oracle: identical tables (all fields, time stamps included) after every accepted group and at the end; reader consumed the whole stream"),
- "C01": ("4 (C01)", "seeded hostile line histories x option vectors x feed faults (chunking, EINTR, resets, EOF mid-line, clock ticks and jumps) in two build profiles (overflow checks on / release-like); oracle: no panic, no wedge, file source returns Ok after EOF, sentinel frame after hostile input is applied"),
+ "C03": ("4 (C03)", "seeded interleaved multi-aircraft histories (adversarially close addresses, nine formats, random payloads, zero-address frames, duplicates, reordering); invariants after every delivered read against an independent CRC-24/address reference: only the addressed row changes, it exists afterwards, no row for address 0, key == address, no unexplained rows; non-interference replay of one aircraft's own frames; clock set back, reconnects, tables of 1000+ rows"),
+ "C12": ("4 (C12)", "seeded schedules of talk spurts and silences on and around delete_after under a discrete-event clock, every format as the refreshing frame, -U/-f, file and TCP with reconnects; oracle: reference expiry model after every event (live rows present, last-contact stamp == processing time of latest accepted frame, stale rows gone within 12 accepted frames, re-created rows equal first-frame rows, no phantom rows); clock set back, 'never delete' limits, weeks of silence, 600-1500 rows going silent at once"),
+ "C16": ("4 (C16)", "seeded mixed streams (all formats, unsupported DFs, zero addresses, parity failures, junk) under -f subsets, -c on/off, refresh driven by the simulated clock, stdout captured through the seam; oracle: reference per-DF counter == printed counter line in ascending order, filtered/rejected frames change neither table nor output (stepwise, and against a second run without the excluded frames), passing frames are applied, no counter line without -c; heavy runs: 65 536+ frames, 1000+ aircraft, all 32 formats"),
+ "C18": ("4 (C18)", "seeded TCP fault sequences over {refuse, accept+close, accept+frames+close, accept+partial line+reset/timeout, accept+junk, EINTR} followed by a healthy connection, with simulated 5 s retry pauses, clock steps during outages, -f; oracle: reader never returns/panics, whole script is read and healthy frames applied, 3..8 s pause after a refused attempt, rows heard within delete_after survive unchanged (also against a fault-free replay of the same lines at the same instants), rejected partial lines change nothing"),
+ "C04": ("4 (C04)", "seeded histories with bit-flip injection on in-flight DF11/17/18 squitters (all 1-bit, all 2-bit, all (start,len<=24) bursts enumerated round-robin by run index, heavy random) at chosen history points; oracle: table bit-for-bit unchanged incl. time stamps and no counter/output effect whenever the reference CRC-24 syndrome demands rejection; IID-only DF11 must be applied; repeated damaged frames, damage by the station's interrogator code, 100 000+ clean lines before the damage, unwritable -D"),
+ "C13": ("4 (C13)", "seeded differential simulation: a junk-laden stream (file or TCP, arbitrary read boundaries) against its accepted subsequence replayed at identical simulated processing times; oracle: identical tables (all fields, time stamps included) after every accepted group and at the end; reader consumed the whole stream; stalled peers (line tails 10-40 s late), floods of 65 536+ junk lines"),
+ "C01": ("4 (C01)", "seeded hostile line histories x option vectors x feed faults (chunking, EINTR, resets, EOF mid-line, clock ticks and jumps, streams of 215 000+ frames) in two build profiles (overflow checks on / release-like); oracle: no panic, no wedge, file source returns Ok after EOF, sentinel frame after hostile input is applied"),
 }
 TECH = "deterministic simulation with fault injection: seeded search over event scripts (arrivals, channel and feed faults, simulated clock) executed against the real reader thread through clock / transport / stdout seams; invariants after every event and reference-model checks over the recorded history; minimised replay files"
 
